@@ -92,7 +92,7 @@ func unsupportedV(t *rapid.T) sb.V {
 		// ... and to types whose interface method is promoted, with a pointer receiver, from a struct embedded by value
 		{K: "nilptr:promoted-stringer"}, {K: "nilptr:promoted-number"}, {K: "nilptr:promoted-boolean"},
 		// struct values, and pointers to them, whose interface method is promoted from an embedded pointer or interface that is nil
-		{K: "embednil:stringer"}, {K: "embednil:number"}, {K: "embednil:boolean"}, {K: "embednil:iface"}, {K: "embednil:safe"}, {K: "embednil:time"},
+		{K: "embednil:stringer"}, {K: "embednil:number"}, {K: "embednil:boolean"}, {K: "embednil:iface"}, {K: "embednil:safe"}, {K: "embednil:time"}, {K: "embednil:deep"}, {K: "ptr", E: []sb.V{{K: "embednil:deep"}}},
 		{K: "ptr", E: []sb.V{{K: "embednil:stringer"}}}, {K: "ptr", E: []sb.V{{K: "embednil:iface"}}}, {K: "ptr", E: []sb.V{{K: "embednil:safe"}}},
 		{K: "nilslice:int"}, {K: "nilmap:str"}, {K: "person", S: "n", N: 3}, {K: "ptr", E: []sb.V{{K: "plain", N: 1}}},
 		{K: "ptr", E: []sb.V{{K: "person", S: "q", N: 1}}},
